@@ -315,7 +315,9 @@ def _generate_sample_with_postselect(
                 break
 
         else:
-            retry = False
+            # NOTE: A lost photon skips the feasibility test above, so the loop may
+            # end with required photons still missing (also when `n == 0`).
+            retry = bool(track_photons_needed and photons_needed > 0)
 
     if not track_photons_needed:
         return sample
